@@ -985,6 +985,9 @@ func (x *Exec) specInline(ce *CEnv, f *ssa.Function, args []*Val) *Val {
 	if r, ok := x.modelCall(bc, nil, name, f, args); ok {
 		return r
 	}
+	if x.isOpaque(name) {
+		return x.pureFuncApp(ce, f, &FuncContract{Name: name}, args)
+	}
 	if fc := x.prog.Contracts.Funcs[name]; fc != nil && !fc.Inline && fc.Pure && !(x.rootC != nil && x.rootC.InlineCallees[name]) {
 		// pure function with contract inside a spec: uninterpreted application + ensures
 		return x.pureFuncApp(ce, f, fc, args)
@@ -996,6 +999,22 @@ func (x *Exec) specInline(ce *CEnv, f *ssa.Function, args []*Val) *Val {
 		cfail("recursive use of %s in a specification", name)
 	}
 	return x.inlineCall(bc, nil, f, nil, args)
+}
+
+// isOpaque: `opt opaque f g ...` on a lemma treats the named (side-effect free)
+// functions as uninterpreted functions of their arguments inside that lemma, so
+// that facts about them come only from the lemmas it `use`s - equational
+// reasoning over lemma instances instead of unfolding large arithmetic bodies.
+func (x *Exec) isOpaque(name string) bool {
+	if x.rootC == nil || x.rootC.Opts["opaque"] == "" {
+		return false
+	}
+	for _, n := range strings.Fields(x.rootC.Opts["opaque"]) {
+		if normalizeFuncName(n) == name {
+			return true
+		}
+	}
+	return false
 }
 
 // pureFuncApp: an uninterpreted function symbol for a pure Go function.
